@@ -154,7 +154,9 @@ Enums == << GEnum(<< <<"v1", FALSE, 0>>, <<"v2", FALSE, 0>> >>, 0 - 1),
             GEnum(<< <<"a", FALSE, 0>>, <<"b", TRUE, 5>>, <<"c", FALSE, 0>> >>, 0 - 1) >>
 Sizes == << GNoSz, GSz("sz", 3, 3, FALSE, "plain"), GSz("sz", 1, 4, FALSE, "plain"), GSz("sz", 1, 4, TRUE, "plain"),
             GSz("sz", 3, 3, TRUE, "plain"), GSz("none", 0, 0, FALSE, "zeroMax"), GSz("sz", 0, 5, FALSE, "plain"),
-            GSz("sz", 2, 2, FALSE, "range") >>                                            \* SIZE(2..2) = SIZE(2)
+            GSz("sz", 2, 2, FALSE, "range"),                                              \* SIZE(2..2) = SIZE(2)
+            \* semi-constrained: SIZE(1..MAX), SIZE(2..MAX,...) - the upper bound MAX is written ub = -1
+            GSz("sz", 1, 0 - 1, FALSE, "lbMax"), GSz("sz", 2, 0 - 1, TRUE, "lbMax") >>
 Css == <<"utf8", "ia5", "vis", "prt", "num">>
 Strs == [i \in 1..(Len(Css) * Len(Sizes)) |-> GStr(Css[((i - 1) \div Len(Sizes)) + 1], Sizes[((i - 1) % Len(Sizes)) + 1])]
 Octs == [i \in 1..Len(Sizes) |-> GOct(Sizes[i])]
@@ -201,7 +203,8 @@ FList == [q \in 1..(2 * Len(Small) * 3) |->
             GSeqOf(q % 2 = 0, Small[(((q - 1) \div 2) % Len(Small)) + 1].t, <<Sizes[1], Sizes[2], Sizes[4]>>[((q - 1) \div (2 * Len(Small))) + 1])]
          \o << GSeqOf(FALSE, GSeqOf(FALSE, Ints[2], Sizes[3]), GNoSz), GSeqOf(TRUE, GSeqOf(FALSE, GBool, GNoSz), Sizes[4]),
                \* a list whose element is an inline structured type
-               GSeqOf(FALSE, InSeq, GNoSz), GSeqOf(TRUE, InChoice, Sizes[3]), GSeqOf(FALSE, InEnum, GNoSz) >>
+               GSeqOf(FALSE, InSeq, GNoSz), GSeqOf(TRUE, InChoice, Sizes[3]), GSeqOf(FALSE, InEnum, GNoSz),
+               GSeqOf(FALSE, GBool, Sizes[9]), GSeqOf(TRUE, Ints[2], Sizes[10]), GSeqOf(FALSE, GSeqOf(FALSE, GBool, Sizes[9]), Sizes[9]) >>
 \* one component, both kinds, marker none / after it
 FSeq1 == [q \in 1..(NComp * 4) |->
             GSeq((q - 1) % 2 = 1, <<CompOf(((q - 1) \div 4) + 1, "f1")>>, IF ((q - 1) \div 2) % 2 = 0 THEN 0 - 1 ELSE 0)]
@@ -219,7 +222,32 @@ FChoice == [q \in 1..(NAlt * 3) |->
                   n == ((q - 1) % 3) + 1
               IN GChoice([j \in 1..n |-> AltOf(IF j = 1 THEN a1 ELSE Spread(a1, j, NAlt), Name("a", j))], IF q % 4 = 0 THEN n - 1 ELSE IF q % 4 = 1 /\ n > 1 THEN 0 ELSE 0 - 1)]
 
-AllTypes == FLeaf \o FList \o FSeq1 \o FSeq2 \o FSeq3 \o FChoice
+\* mixed definitions: pseudo-randomly composed trees (depth <= 2) of every constructor with tags, modes, DEFAULT literals,
+\* extension markers and inline structured members - combinations the systematic families keep apart
+GPick(q, k, n) == LET a == q % 9973 b == (q \div 9973) % 9973 IN ((((a * 7919 + b * 6733 + k * 10477) % 99991) * 21 + (a % 13)) % n) + 1
+RECURSIVE GMixType(_, _)
+GMixMember(q, d, nm, isAlt) ==
+  LET lf == GPick(q, 7, 3) <= 2 \/ d >= 2
+      s == Small[GPick(q, 8, 10)]                               \* the ten leaf / reference entries of the pool
+      t == IF lf THEN s.t ELSE GMixType((q * 43 + 5) % 1000003, d + 1)
+      tg == Tags[GPick(q, 9, Len(Tags))]
+      m0 == Modes[GPick(q, 10, 3)]
+      m == IF m0 = "def" /\ (~lf \/ s.lit = <<>>) THEN "opt" ELSE m0
+  IN IF isAlt THEN GAlt(nm, tg, t) ELSE GComp(nm, tg, t, m, IF m = "def" THEN s.lit ELSE <<>>)
+GMixType(q, d) ==
+  LET kind == GPick(q, 1, 4)                                     \* 1, 2: SEQUENCE / SET, 3: CHOICE, 4: list
+      n == GPick(q, 2, 3)
+      names == <<"f1", "f2", "f3">>
+      anames == <<"a1", "a2", "a3">>
+  IN IF kind <= 2
+     THEN GSeq(kind = 2, [i \in 1..n |-> GMixMember((q * 31 + i) % 1000003, d, names[i], FALSE)], GPick(q, 3, n + 1) - 2)
+     ELSE IF kind = 3
+     THEN GChoice([i \in 1..n |-> GMixMember((q * 37 + i) % 1000003, d, anames[i], TRUE)], GPick(q, 3, n + 1) - 2)
+     ELSE LET e == GMixMember((q * 41 + 1) % 1000003, d + 1, "e", TRUE)
+          IN GSeqOf(GPick(q, 4, 2) = 1, e.t, <<Sizes[1], Sizes[3], Sizes[4]>>[GPick(q, 5, 3)])
+FMix == [q \in 1..(60 * K) |-> GMixType(q + 300, 0)]
+
+AllTypes == FLeaf \o FList \o FSeq1 \o FSeq2 \o FSeq3 \o FChoice \o FMix
 DefTags == << <<>>, <<1, 3>>, <<2, 5>> >>
 \* definition i: type i of AllTypes, its definition-level tag cycling through DefTags
 DefOf(i) == GDef(Name("T", i), DefTags[(i % Len(DefTags)) + 1], AllTypes[i])
